@@ -7,8 +7,8 @@
 EXTENDS YkTree, Json, IOUtils
 CONSTANTS ON, LENIENT
 Log == ndJsonDeserialize(IOEnv.TRACE)
-VARIABLES node, root, nextId, abs, l, lastRead, lastMem, sizes
-tvars == <<node, root, nextId, abs, l, lastRead, lastMem, sizes>>
+VARIABLES node, root, nextId, abs, l, lastRead, lastMem, sizes, vsz
+tvars == <<node, root, nextId, abs, l, lastRead, lastMem, sizes, vsz>>
 E == Log[l]
 Has(f) == f \in DOMAIN E
 Chk(c) == c \in ON
@@ -67,7 +67,7 @@ DumpOK(nabs) == IF Has("dump") /\ Chk("C08")
                 ELSE TRUE
 \* ---------------------------------------------------------------- events
 TMeta == /\ E.op = "meta" /\ sizes' = [b |-> E.szb, i |-> E.szi, lv |-> E.szlv, p |-> E.szp] /\ E.F = F
-         /\ UNCHANGED <<node, root, nextId, abs, lastRead, lastMem>>
+         /\ UNCHANGED <<node, root, nextId, abs, lastRead, lastMem, vsz>>
 \* C12: reported nodes vs. borders whose version word changed (driver compares every border's word before / after)
 ReportOK(isInsert, split) ==
    LET mod == E.rep[1] cre == E.rep[2] IN
@@ -94,6 +94,7 @@ TPut == /\ E.op = "put"
            /\ DumpOK(nabs)
            /\ abs' = nabs
            /\ IF fails THEN Structure(node, root, nextId) ELSE Structure(c[1], c[2][r[2]], c[3])
+           /\ vsz' = IF ~fails /\ Has("vsz") THEN (E.v :> E.vsz) @@ vsz ELSE vsz
         /\ lastRead' = [lastRead EXCEPT !.valid = FALSE] /\ UNCHANGED <<lastMem, sizes>>
 TRem == /\ E.op = "rem"
         /\ LET pres == Present(E.k)
@@ -105,7 +106,7 @@ TRem == /\ E.op = "rem"
            /\ DumpOK(nabs)
            /\ abs' = nabs
            /\ IF pres THEN Structure(c[1], c[2][r[2]], c[3]) ELSE Structure(node, root, nextId)
-        /\ lastRead' = [lastRead EXCEPT !.valid = FALSE] /\ UNCHANGED <<lastMem, sizes>>
+        /\ lastRead' = [lastRead EXCEPT !.valid = FALSE] /\ UNCHANGED <<lastMem, sizes, vsz>>
 NvOf(res) == [i \in 1..Len(res.nv) |-> <<res.nv[i][2], res.nv[i][1].vi, res.nv[i][1].vs>>]
 LogNv == [i \in 1..Len(E.nv) |-> <<E.nv[i][1], E.nv[i][2], E.nv[i][3]>>]
 \* model-based phantom check (C05): every absent key of the covered interval, inserted into the current tree, changes a recorded version
@@ -120,7 +121,7 @@ TGet == /\ E.op = "get"
            /\ J("S", "get-nv", i = 0 => LogNv = << <<g.b, node[g.b].ver.vi, node[g.b].ver.vs>> >>, [b |-> g.b])
            /\ J("C05", "get-phantom-model", (i = 0 /\ Chk("M")) => Undetected(E.k, "INC", E.k, "INC") = {}, [k |-> E.k])
            /\ lastRead' = IF i = 0 THEN [valid |-> TRUE, l |-> E.k, le |-> "INC", r |-> E.k, re |-> "INC"] ELSE [lastRead EXCEPT !.valid = FALSE]
-        /\ UNCHANGED <<node, root, nextId, abs, lastMem, sizes>>
+        /\ UNCHANGED <<node, root, nextId, abs, lastMem, sizes, vsz>>
 KeysOf(pairs) == [i \in 1..Len(pairs) |-> pairs[i][1]]
 TScan == /\ E.op = "scan"
          /\ LET okargs == ScanArgsOK(E.l, E.le, E.r, E.re, E.max, E.rtl)
@@ -139,7 +140,7 @@ TScan == /\ E.op = "scan"
             /\ J("C05", "scan-phantom-model", (okargs /\ Chk("M") /\ got = exp) => Undetected(cl, cle, cr, cre) = {},
                   [undetected |-> IF okargs /\ Chk("M") /\ got = exp THEN Undetected(cl, cle, cr, cre) ELSE {}])
             /\ lastRead' = IF okargs /\ E.st = "OK" /\ got = exp THEN [valid |-> TRUE, l |-> cl, le |-> cle, r |-> cr, re |-> cre] ELSE [lastRead EXCEPT !.valid = FALSE]
-         /\ UNCHANGED <<node, root, nextId, abs, lastMem, sizes>>
+         /\ UNCHANGED <<node, root, nextId, abs, lastMem, sizes, vsz>>
 \* cursor API: the consumed entries are a prefix of the interval in the requested direction
 TIscan == /\ E.op = "iscan"
           /\ LET okargs == ValidRange(E.l, E.le, E.r, E.re)
@@ -163,48 +164,66 @@ TIscan == /\ E.op = "iscan"
              /\ J("C05", "iscan-phantom-model", (okargs /\ got = want /\ Chk("M")) => Undetected(pl, ple, pr, pre) = {},
                    [undetected |-> IF okargs /\ got = want /\ Chk("M") THEN Undetected(pl, ple, pr, pre) ELSE {}])
              /\ lastRead' = IF okargs /\ got = want /\ Len(E.nv) >= 1 THEN [valid |-> TRUE, l |-> pl, le |-> ple, r |-> pr, re |-> pre] ELSE [lastRead EXCEPT !.valid = FALSE]
-          /\ UNCHANGED <<node, root, nextId, abs, lastMem, sizes>>
+          /\ UNCHANGED <<node, root, nextId, abs, lastMem, sizes, vsz>>
 \* the caller pauses the cursor after some entries, writes into the tree (insert of a new key / remove of a present key), and resumes:
 \* with early_abort a structural modification of the border under the cursor must be reported as WARN_CONCURRENT_OPERATIONS by the next
 \* call; otherwise (and for other borders) the cursor continues with exactly the remaining entries of the updated map
 IsPrefix(a, b) == Len(a) <= Len(b) /\ SubSeq(b, 1, Len(a)) = a
+\* a sequence of writes (insert of a new key / overwrite / remove) applied to an abstract map and to the node map
+AIdx(a, k) == IF \E i \in 1..Len(a) : a[i][1] = k THEN CHOOSE i \in 1..Len(a) : a[i][1] = k ELSE 0
+APut(a, k, v) == LET i == AIdx(a, k) IN
+                 IF i # 0 THEN [a EXCEPT ![i] = <<k, v>>]
+                 ELSE LET p == Cardinality({j \in 1..Len(a) : LexLess(a[j][1], k)}) IN SubSeq(a, 1, p) \o << <<k, v>> >> \o SubSeq(a, p + 1, Len(a))
+ARem(a, k) == LET i == AIdx(a, k) IN IF i = 0 THEN a ELSE SubSeq(a, 1, i - 1) \o SubSeq(a, i + 1, Len(a))
+RECURSIVE ApplyWrites(_, _, _)
+\* st = [abs, nd, rt, nid, structural (some write changed a border's entries), under (... of the border b1)]
+ApplyWrites(ws, i, st) ==
+   IF i > Len(ws) THEN st
+   ELSE LET w == ws[i] pres == AIdx(st.abs, w.k) # 0 ok == w.st = "OK" IN
+        IF ~ok THEN ApplyWrites(ws, i + 1, st)
+        ELSE IF w.op = "put" THEN
+           LET r == PutRec(st.nd, st.rt, st.nid, st.rt, w.k, w.v) c == Canon(r[1], r[2]) IN
+           ApplyWrites(ws, i + 1, [abs |-> APut(st.abs, w.k, w.v), nd |-> c[1], rt |-> c[2][r[2]], nid |-> c[3],
+                                   structural |-> st.structural \/ ~pres, hitb |-> st.hitb \cup (IF ~pres THEN {GetRec(st.nd, st.rt, w.k).b} ELSE {})])
+        ELSE IF pres THEN
+           LET r == RemoveRec(st.nd, st.rt, st.rt, w.k) c == Canon(r[1], r[2]) IN
+           ApplyWrites(ws, i + 1, [abs |-> ARem(st.abs, w.k), nd |-> c[1], rt |-> c[2][r[2]], nid |-> c[3],
+                                   structural |-> TRUE, hitb |-> st.hitb \cup {GetRec(st.nd, st.rt, w.k).b}])
+        ELSE ApplyWrites(ws, i + 1, st)
 TIscanMod ==
    /\ E.op = "iscanmod"
    /\ LET asc == AbsRange(E.l, E.le, E.r, E.re)
           full == IF E.rtl THEN Reverse(asc) ELSE asc
           got1 == [i \in 1..Len(E.steps1) |-> <<E.steps1[i][1], E.steps1[i][2]>>]
           got2 == [i \in 1..Len(E.steps2) |-> <<E.steps2[i][1], E.steps2[i][2]>>]
-          written == E.mid.op \in {"put", "rem"} /\ E.mid.st = "OK"
+          nw == Len(E.mids)
           lastk == got1[Len(got1)][1]
-          pres == Present(E.mid.k)
-          structural == written /\ ((E.mid.op = "put" /\ ~pres) \/ (E.mid.op = "rem" /\ pres))
-          nabs == IF ~written THEN abs ELSE IF E.mid.op = "put" THEN AbsPut(E.mid.k, E.mid.v) ELSE IF pres THEN AbsRemove(E.mid.k) ELSE abs
-          asc2 == SelectSeq(nabs, LAMBDA p : InRange(p[1], E.l, E.le, E.r, E.re) /\ (IF E.rtl THEN LexLess(p[1], lastk) ELSE LexLess(lastk, p[1])))
+          fin == ApplyWrites(E.mids, 1, [abs |-> abs, nd |-> node, rt |-> root, nid |-> nextId, structural |-> FALSE, hitb |-> {}])
+          wkeys == {E.mids[i].k : i \in 1..nw}
+          asc2 == SelectSeq(fin.abs, LAMBDA p : InRange(p[1], E.l, E.le, E.r, E.re) /\ (IF E.rtl THEN LexLess(p[1], lastk) ELSE LexLess(lastk, p[1])))
           rest == IF E.rtl THEN Reverse(asc2) ELSE asc2
           b1 == GetRec(node, root, lastk).b
-          b2 == GetRec(node, root, E.mid.k).b
-          under == structural /\ b1 = b2 IN
-      /\ J("C10", "iscan-result", Len(got1) >= 1 /\ IsPrefix(got1, full), [exp |-> KeysOf(full), got |-> KeysOf(got1), rtl |-> E.rtl])
-      /\ J("C10", "iscan-early-abort-missed", (E.mid.op # "none" /\ E.ea /\ under) => (E.end = "WARN_CONCURRENT_OPERATIONS" /\ Len(got2) = 0),
-            [under |-> under, lastk |-> lastk, written |-> E.mid.k])
-      /\ J("C10", "iscan-resume-after-write", (E.mid.op # "none" /\ ~(E.ea /\ under)) =>
-               \* the written key itself may or may not be seen (it was not stable during the iteration); everything else must be exactly the rest
-               LET f2 == SelectSeq(got2, LAMBDA p : p[1] # E.mid.k) fr == SelectSeq(rest, LAMBDA p : p[1] # E.mid.k)
-                   mono == \A i \in 1..(Len(got2) - 1) : IF E.rtl THEN LexLess(got2[i + 1][1], got2[i][1]) ELSE LexLess(got2[i][1], got2[i + 1][1]) IN
-               /\ mono
+          \* only the first write is judged for "the node under the cursor" (its border is taken in the tree the cursor saw)
+          under == nw = 1 /\ fin.structural /\ b1 \in fin.hitb IN
+      /\ J("C10", "iscan-result", nw >= 1 => (Len(got1) >= 1 /\ IsPrefix(got1, full)), [exp |-> KeysOf(full), got |-> KeysOf(got1), rtl |-> E.rtl])
+      /\ J("C10", "iscan-early-abort-missed", (nw = 1 /\ E.ea /\ under) => (E.end = "WARN_CONCURRENT_OPERATIONS" /\ Len(got2) = 0),
+            [under |-> under, lastk |-> lastk])
+      /\ J("C10", "iscan-resume-after-write", (nw >= 1 /\ ~(E.ea /\ under)) =>
+               \* written keys may or may not be seen (they were not stable during the iteration); everything else must be exactly the rest
+               LET f2 == SelectSeq(got2, LAMBDA p : p[1] \notin wkeys) fr == SelectSeq(rest, LAMBDA p : p[1] \notin wkeys)
+                   mono == \A i \in 1..(Len(got2) - 1) : IF E.rtl THEN LexLess(got2[i + 1][1], got2[i][1]) ELSE LexLess(got2[i][1], got2[i + 1][1])
+                   inr == \A i \in 1..Len(got2) : InRange(got2[i][1], E.l, E.le, E.r, E.re) IN
+               /\ mono /\ inr
                /\ IF E.ea THEN IsPrefix(f2, fr) /\ (E.end = "OK_SCAN_END" => f2 = fr) /\ E.end \in {"OK_SCAN_END", "WARN_CONCURRENT_OPERATIONS"}
                   ELSE f2 = fr /\ E.end = "OK_SCAN_END",
             [exp |-> KeysOf(rest), got |-> KeysOf(got2), rtl |-> E.rtl, ea |-> E.ea, under |-> under])
-      /\ abs' = nabs
-      /\ IF structural \/ (written /\ E.mid.op = "put") THEN
-            (IF E.mid.op = "put" THEN LET r == PutRec(node, root, nextId, root, E.mid.k, E.mid.v) c == Canon(r[1], r[2]) IN Structure(c[1], c[2][r[2]], c[3])
-             ELSE LET r == RemoveRec(node, root, root, E.mid.k) c == Canon(r[1], r[2]) IN Structure(c[1], c[2][r[2]], c[3]))
-         ELSE Structure(node, root, nextId)
-   /\ lastRead' = [lastRead EXCEPT !.valid = FALSE] /\ UNCHANGED <<lastMem, sizes>>
+      /\ abs' = fin.abs
+      /\ Structure(fin.nd, fin.rt, fin.nid)
+   /\ lastRead' = [lastRead EXCEPT !.valid = FALSE] /\ UNCHANGED <<lastMem, sizes, vsz>>
 \* mem_usage against an independent walk of the dumped structure (C20)
 TMem == /\ E.op = "mem"
         /\ LET dn == DNodes(E.dump)
-               mu == MemUsage(dn, E.dump.root, sizes, LAMBDA v : 16)       \* driver values: 8 bytes + 8 bytes header/alignment
+               mu == MemUsage(dn, E.dump.root, sizes, LAMBDA v : IF v \in DOMAIN vsz THEN vsz[v] ELSE 16)       \* allocated size logged at put: length + max(alignment, 8)
                same == lastMem.valid /\ Len(lastMem.mu) = Len(mu) /\ \A d0 \in 1..Len(mu) : lastMem.mu[d0].nodes = mu[d0].nodes IN
            /\ J("C20", "mem-shape", /\ Len(E.stack) = Len(mu)
                                     /\ \A d \in 1..Len(mu) : E.stack[d][1] = mu[d].nodes /\ E.stack[d][3] = mu[d].reserved /\ E.stack[d][2] <= E.stack[d][3],
@@ -215,12 +234,12 @@ TMem == /\ E.op = "mem"
            /\ J("S", "mem-used", Len(E.stack) = Len(mu) /\ \A d \in 1..Len(mu) : E.stack[d][2] = mu[d].used, [exp |-> [d \in 1..Len(mu) |-> mu[d].used]])
            /\ lastMem' = [valid |-> TRUE, mu |-> mu, used |-> [d \in 1..Len(E.stack) |-> E.stack[d][2]]]
            /\ DumpOK(abs) /\ Structure(node, root, nextId) /\ abs' = abs
-        /\ UNCHANGED <<lastRead, sizes>>
+        /\ UNCHANGED <<lastRead, sizes, vsz>>
 TFinal == /\ E.op = "final" /\ DumpOK(abs) /\ Structure(node, root, nextId) /\ abs' = abs
-          /\ UNCHANGED <<lastRead, lastMem, sizes>>
+          /\ UNCHANGED <<lastRead, lastMem, sizes, vsz>>
 TInit == /\ node = (1 :> NewBorder(TRUE, NULL)) /\ root = 1 /\ nextId = 2 /\ abs = <<>> /\ l = 1
          /\ lastRead = [valid |-> FALSE, l |-> <<>>, le |-> "INF", r |-> <<>>, re |-> "INF"]
-         /\ lastMem = [valid |-> FALSE, mu |-> <<>>, used |-> <<>>] /\ sizes = [b |-> 0, i |-> 0, lv |-> 0, p |-> 0]
+         /\ lastMem = [valid |-> FALSE, mu |-> <<>>, used |-> <<>>] /\ sizes = [b |-> 0, i |-> 0, lv |-> 0, p |-> 0] /\ vsz = <<>>
 TNext == l <= Len(Log) /\ l' = l + 1 /\ (TMeta \/ TPut \/ TRem \/ TGet \/ TScan \/ TIscan \/ TIscanMod \/ TMem \/ TFinal)
 TSpec == TInit /\ [][TNext]_tvars
 TView == l
